@@ -469,7 +469,7 @@ pub fn gen_c18(out: &mut Out, rng: &mut Rng, thorough: bool) {
                 data.extend(frame(kind, tid, unit, &spec::request_bytes(&req).unwrap()));
                 svc.push(match rng.below(8) {
                     0 => Svc::Decline,
-                    1 => Svc::Exception(tokio_modbus::ExceptionCode::new(1 + (q % 4) as u8)),
+                    1 => Svc::Exception(crate::wire::ex_from_spec(1 + (q % 4) as u8)),
                     // now and then a response the server must refuse to encode: it ends this
                     // connection and must leave every other one alone (last request of the
                     // connection, so that the server closes with nothing unread: no RST)
@@ -552,7 +552,7 @@ pub fn gen_serial_server(out: &mut Out, rng: &mut Rng, n: usize) {
             data.extend(frame("ser", 0, unit, &spec::request_bytes(&req).unwrap()));
             svc.push(match rng.below(12) {
                 0 | 1 => Svc::Decline,
-                2 | 3 => Svc::Exception(tokio_modbus::ExceptionCode::new(1 + (q % 4) as u8)),
+                2 | 3 => Svc::Exception(crate::wire::ex_from_spec(1 + (q % 4) as u8)),
                 // a reply beyond the PDU limit: the loop must end there, with an error
                 4 if q > 0 => Svc::Reply(Response::ReadHoldingRegisters(rng.words_in(126, 160))),
                 _ => Svc::Reply(answer_for(rng, &req)),
@@ -612,7 +612,7 @@ pub fn mon_c18(out: &mut Out, l: &str, r: &str) {
                     expect_out.extend(frame(kind, *tid, *unit, &b))
                 }
                 Some(Svc::Exception(e)) => {
-                    let code: u8 = (*e).into();
+                    let code: u8 = crate::wire::ex_num(*e);
                     expect_out.extend(frame(kind, *tid, *unit, &[pdu[0] | 0x80, code]));
                 }
                 _ => {}
